@@ -14,6 +14,7 @@ FORMS_A = [
 FORMS_B = [
     ('',        [['x']]),
     ('',        [['x', 'z']]),                     # all topics, two parts -> partial sets possible
+    ('',        [['x', 'z'], ['z']]),              # publisher drops its FIRST topic between publishes (a stale first part is then never overwritten)
     (';x;z',    [['x', 'z']]),
     (';x>y',    [['x', '_h']]),
     (';*',      [['x', '_h']]),
@@ -42,7 +43,7 @@ def harnesses(tier):
               'symbolic ids are unbounded mathematical integers >= 0']
     hs = []
     if tier == 'quick':
-        hs.append(Harness('c01.recv_stream.2src', mk_scenario([FORMS_A[:2], FORMS_B[:4]], 2, 12, 1),
+        hs.append(Harness('c01.recv_stream.2src', mk_scenario([FORMS_A[:2], FORMS_B[:3] + FORMS_B[4:5]], 2, 12, 1),
                           twin=mk_scenario([FORMS_A[:1], FORMS_B[:1]], 2, 12, 1, planted='oracle'),
                           bounds={'sources': 2, 'forms': '2 x 4', 'publishes_per_source': 2, 'poll_decisions': 12, 'not_yet_answers': 1,
                                   'ids': 'unbounded Int, strictly increasing per source'},
